@@ -25,6 +25,9 @@ func sameSlice(a, b ssa.Value) bool {
 	if a == b {
 		return true
 	}
+	if core.SameCellLoad(a, b) {
+		return true
+	}
 	ka, kb := fieldLoadKey(a), fieldLoadKey(b)
 	return ka != "" && ka == kb
 }
@@ -39,6 +42,12 @@ func fieldLoadKey(v ssa.Value) string {
 			base := core.Resolve(fa.X)
 			if k := fieldLoadKey(base); k != "" {
 				return fmt.Sprintf("%s.%d", k, fa.Field)
+			}
+			if fv, ok := base.(*ssa.FreeVar); ok {
+				// a captured struct variable denotes its cell in the enclosing function
+				if cell := core.CellOf(fv); cell != nil {
+					base = cell
+				}
 			}
 			return fmt.Sprintf("%p.%d", base, fa.Field)
 		}
